@@ -395,6 +395,12 @@ func execRange(e *eng, s *iterSpec) (obs string, spareHit bool) {
 	var sb strings.Builder
 	sb.WriteByte('[')
 	n := 0
+	// Key() and Value() hand out slices the caller owns (the data mapping keeps them while it goes
+	// on iterating, e.g. HGETALL); RefKey()/RefValue() are only valid until the iterator moves.
+	// So owned slices are kept as they are and only rendered after the iteration is over and the
+	// iterator is closed: an implementation that returns its internal buffer shows up here.
+	var ks, vs [][]byte
+	runaway := false
 	for ; it.Valid(); it.Next() {
 		var k, v []byte
 		if s.refKey {
@@ -407,16 +413,22 @@ func execRange(e *eng, s *iterSpec) (obs string, spareHit bool) {
 		} else {
 			v = it.Value()
 		}
-		fmt.Fprintf(&sb, "%x=%x ", k, v)
+		ks, vs = append(ks, k), append(vs, v)
 		n++
 		if n > 10000 {
-			sb.WriteString("...runaway")
+			runaway = true
 			break
 		}
 	}
-	sb.WriteByte(']')
 	it.Close()
 	closed = true
+	for i := range ks {
+		fmt.Fprintf(&sb, "%x=%x ", ks[i], vs[i])
+	}
+	if runaway {
+		sb.WriteString("...runaway")
+	}
+	sb.WriteByte(']')
 	if !bytes.Equal(min, s.min) || !bytes.Equal(max, s.max) {
 		sb.WriteString("!caller-bound-modified")
 	}
